@@ -421,7 +421,7 @@ def run_c15(S, out):
 
 
 def run_c11(S, out):
-    for name, edit, prop, j in S.malformed_stream():
+    for name, edit, prop, j in ([] if "--nested-only" in sys.argv else S.malformed_stream()):
         out.count(name + edit + prop + convops.dumps(j))
         if len(out.samples) < 4 and edit != "missing-required":
             out.samples.append({"structure": name, "edit": edit, "property": prop, "json": j})
@@ -430,6 +430,15 @@ def run_c11(S, out):
         except Exception:  # noqa: BLE001
             continue
         out.add(f"{name}.{prop}", edit, "structuring raises", repr(v)[:200], name, j)
+    # the same deviations at nested protocol-object nodes of valid root values (through arrays, maps, unions, message envelopes)
+    for name, edit, where, j in S.nested_malformed_stream():
+        out.count(name + edit + where + convops.dumps(j))
+        try:
+            pt = getattr(types, name)
+            v = CONV.structure(j, pt)
+        except Exception:  # noqa: BLE001
+            continue
+        out.add(f"{name}:{where}", "nested-" + edit, "structuring raises", repr(v)[:200], name, j)
 
 
 def message_props():
